@@ -177,7 +177,10 @@ def KL(nn_state, target, space=None, bases=None, **kwargs):
     KL = 0.0
 
     if bases is None:
-        target_probs = cplx.absolute_value(target) ** 2
+        if target.dim() == 3:  # density matrix: probabilities are its diagonal
+            target_probs = torch.diagonal(cplx.real(target))
+        else:
+            target_probs = cplx.absolute_value(target) ** 2
         nn_probs = nn_state.probability(space, Z)
 
         KL += _single_basis_KL(target_probs, nn_probs)
